@@ -3,6 +3,7 @@ import ast as pyast
 import inspect
 import time
 import types
+import re as _re
 import z3
 
 from .vals import *    # noqa
@@ -207,12 +208,14 @@ class Executor(Engine, ExprMixin, StmtMixin, CallMixin):
                 if isinstance(v, V):
                     env[n] = V(v.t, parse_spec(specs))
             pre = State(dict(env), dict(st.heap), st.guard)
+            env = self.let_env(c, env, pre)
+            pre.vars = dict(env)
             keys = [self.eval_in(pre, c, env, k) for k in c.pure_keys]
             uf = self.get_uf('pure_' + c.qual.replace('.', '_'), *([Val] * len(keys) + [Val]))
             rt = uf(*[k.t for k in keys])
             rspec = parse_spec(c.returns) if c.returns else None
             if rspec is not None:
-                self.assume(st, rspec.assumption(rt))
+                self.assume(st, self.spec_formula(st, rspec, rt))
             res = V(rt, rspec)
             env2 = dict(env)
             env2['result'] = res
@@ -237,7 +240,7 @@ class Executor(Engine, ExprMixin, StmtMixin, CallMixin):
             v = env.get(n)
             if isinstance(v, V) and spec is not None:
                 if v.hint is None or repr(v.hint) != repr(spec):
-                    self.oblige(st, 'calltype:%s:%s@%d' % (c.qual.split('.')[-1], n, line), spec.assumption(v.t),
+                    self.oblige(st, 'calltype:%s:%s@%d' % (c.qual.split('.')[-1], n, line), self.spec_formula(st, spec, v.t),
                                 'argument %s of %s must have declared type %s' % (n, c.qual, specs))
                     env[n] = V(v.t, spec)
         pre = State(dict(env), dict(st.heap), st.guard)
@@ -288,7 +291,7 @@ class Executor(Engine, ExprMixin, StmtMixin, CallMixin):
         else:
             rt = fresh('res_' + c.qual.split('.')[-1])
         if rspec is not None:
-            self.assume(st, rspec.assumption(rt))
+            self.assume(st, self.spec_formula(st, rspec, rt))
             self.assume_class_invariants(st, rt, rspec)
         if c.fresh_result:
             self.alloc_k += 1
@@ -399,6 +402,8 @@ class Executor(Engine, ExprMixin, StmtMixin, CallMixin):
         spec = c.loops.get(key) if c is not None else None
         if spec is None and c is not None:
             spec = c.loops.get((fr.func_name.split('.')[-1], ordinal))
+        if spec is None:
+            spec = self.registry.global_loops.get((fr.func_name, ordinal))
         return spec
 
     def assigned_names(self, stmts):
@@ -421,13 +426,22 @@ class Executor(Engine, ExprMixin, StmtMixin, CallMixin):
             wd, truth = self.eval_spec(st, inv, c, env, self.top_pre)
             self.oblige(st, '%s.inv%d.%s' % (name, i, kind), And(wd, truth), 'loop invariant: ' + inv)
 
-    def assume_inv(self, st, spec):
+    def assume_inv(self, st, spec, generalize=False):
         c = self.cur_contract
         for inv in spec.get('invariant', []):
             env = dict(self.top_env)
             env.update({k: v for k, v in st.vars.items() if v is not UNBOUND})
+            n0 = len(self.assumes)
             wd, truth = self.eval_spec(st, inv, c, env, self.top_pre)
             self.assume(st, And(wd, truth))
+            if generalize:
+                # Invariants are proved inductive for an arbitrary, unconstrained ghost index, hence they hold at the
+                # loop head for every index; list.sort instantiates them at the permuted positions (calls.list_sort).
+                for g in spec.get('generalize', []):
+                    if any(_re.search(r'\b%s\b' % _re.escape(g), r0) for r0 in c.requires):
+                        raise EngineError('ghost %s is constrained by a precondition and cannot be generalised' % g)
+                    if _re.search(r'\b%s\b' % _re.escape(g), inv):
+                        self.generalized.append((self.top_env[g].t, list(self.assumes[n0:])))
 
     def havoc_loop(self, st, spec, body_stmts, extra_vars=()):
         c = self.cur_contract
@@ -444,9 +458,26 @@ class Executor(Engine, ExprMixin, StmtMixin, CallMixin):
                     self.assume(st, hint.assumption(nv))
                 self.known_ref(st, nv)
                 st.vars[n] = V(nv, hint)
+        for n, tsp in vt.items():
+            # a local list that the loop mutates in place (not reassigned): its declared element type is a data
+            # invariant - established because the list is empty at loop entry (obligation in retype_locals) and every
+            # append inside the loop is checked against it
+            old = st.vars.get(n)
+            if n not in names and isinstance(old, V):
+                st.vars[n] = V(old.t, parse_spec(tsp))
         env = dict(self.top_env)
         env.update({k: v for k, v in st.vars.items() if v is not UNBOUND})
         self.havoc(st, c, env, spec.get('modifies', []))
+
+    def retype_locals(self, st, spec, body_stmts, name):
+        names = self.assigned_names(body_stmts)
+        for n, tsp in spec.get('var_types', {}).items():
+            old = st.vars.get(n)
+            sp = parse_spec(tsp)
+            if n not in names and isinstance(old, V) and sp.kind == 'list' and sp.elem is not None \
+                    and repr(old.hint) != repr(sp):
+                self.oblige(st, '%s.elemtype.%s.init' % (name, n), self.list_len(st, Val.r(old.t)) == 0,
+                            'the list %s, given the element type %s for the loop, is empty at loop entry' % (n, tsp))
 
     def ghost_init(self, st, spec):
         """ghost variables captured at loop entry (visible to invariants and to the postconditions)"""
@@ -521,6 +552,7 @@ class Executor(Engine, ExprMixin, StmtMixin, CallMixin):
         self.fold_axioms(st, spec, None, False)
         self.check_inv(st, spec, name, 'init', None)
         body_stmts = s.body + [pyast.Assign(targets=[s.target], value=pyast.Constant(value=None))]
+        self.retype_locals(st, spec, body_stmts, name)
         # the state after the loop: an arbitrary state satisfying the invariant with the index at the end.
         # It is havocked separately from the body state below (independent constants), so that facts recorded
         # inside the body (call events, exits) stay compatible with the path that continues after the loop.
@@ -530,7 +562,7 @@ class Executor(Engine, ExprMixin, StmtMixin, CallMixin):
         after.vars[ivar] = V(mkI(iv_e), parse_spec('int'))
         n_e = self.list_len(after, r)
         self.assume(after, And(iv_e >= 0, iv_e <= n_e))
-        self.assume_inv(after, spec)
+        self.assume_inv(after, spec, generalize=True)
         after.guard = And(after.guard, iv_e >= n_e)
         # the body: an arbitrary iteration
         self.havoc_loop(st, spec, body_stmts)
@@ -543,6 +575,8 @@ class Executor(Engine, ExprMixin, StmtMixin, CallMixin):
         head_off = self.list_off(st, r)
         # body path
         st.guard = And(st.guard, iv < n)
+        body_rec = {'name': name, 'guard': st.guard, 'cond': iv < n, 'n_begin': len(self.assumes)}
+        self.body_regions.append(body_rec)
         elem_t = self.list_elem(st, r, iv)
         es = seq.hint.elem
         if view is not None and view in ('items', 'keys', 'values'):
@@ -562,7 +596,7 @@ class Executor(Engine, ExprMixin, StmtMixin, CallMixin):
                 x = V(val, vspec)
         else:
             if es is not None:
-                self.assume(st, es.assumption(elem_t))
+                self.assume(st, self.spec_formula(st, es, elem_t))
             self.known_ref(st, elem_t)
             x = V(elem_t, es)
             if view == 'enumerate':
@@ -584,6 +618,7 @@ class Executor(Engine, ExprMixin, StmtMixin, CallMixin):
         conts = self.take_exits(start, lambda e: e.kind == 'continue' and e.loop is loop_id)
         self.merge_exit_states(st, conts)
         breaks = self.take_exits(start, lambda e: e.kind == 'break' and e.loop is loop_id)
+        body_rec['n_end'] = len(self.assumes)
         if not st.dead():
             st.vars[ivar] = V(mkI(iv + 1), parse_spec('int'))
             # the iterated list itself must not change
@@ -635,6 +670,8 @@ class Executor(Engine, ExprMixin, StmtMixin, CallMixin):
             self.fold_axioms(st, spec, Val.i(st.vars[spec['index']].t), True)
         c = self.truthy(st, self.eval(st, s.test))
         st.guard = And(st.guard, c)
+        body_rec = {'name': name, 'guard': st.guard, 'cond': c, 'n_begin': len(self.assumes)}
+        self.body_regions.append(body_rec)
         loop_id = object()
         fr.loop_stack.append(loop_id)
         start = len(fr.exits)
@@ -645,6 +682,7 @@ class Executor(Engine, ExprMixin, StmtMixin, CallMixin):
         conts = self.take_exits(start, lambda e: e.kind == 'continue' and e.loop is loop_id)
         self.merge_exit_states(st, conts)
         breaks = self.take_exits(start, lambda e: e.kind == 'break' and e.loop is loop_id)
+        body_rec['n_end'] = len(self.assumes)
         if not st.dead():
             self.check_inv(st, spec, name, 'preserve', None)
         st.vars, st.heap, st.guard = after.vars, after.heap, after.guard
@@ -660,7 +698,7 @@ class Executor(Engine, ExprMixin, StmtMixin, CallMixin):
         spec = parse_spec(specs)
         t = z3.Const('p_' + name, Val)
         if spec is not None:
-            self.assume(st, spec.assumption(t))
+            self.assume(st, self.spec_formula(st, spec, t))
             self.assume_class_invariants(st, t, spec)
         self.assume(st, z3.Implies(Val.is_R(t), Val.r(t) <= self.alloc0))
         v = V(t, spec)
@@ -692,6 +730,7 @@ class Executor(Engine, ExprMixin, StmtMixin, CallMixin):
             mod = inspect.getmodule(f)
         self.cur_contract = c
         self.abstract_products = bool(getattr(c.module, 'ABSTRACT_PRODUCTS', False))
+        self.string_lemmas = bool(getattr(c.module, 'STRING_LEMMAS', False))
         st = State()
         if self.logger is None:
             self.setup_globals()
@@ -723,8 +762,13 @@ class Executor(Engine, ExprMixin, StmtMixin, CallMixin):
                 finally:
                     self.frames.pop()
         body_names = set(env)
+        self.ghost_ints = []
+        self.generalized = []
+        self.body_regions = []
         for gname, gspec in c.ghost.items():
             env[gname] = self.make_param(st, gname, gspec)
+            if gspec == 'int' and (c.index_ghosts is None or gname in c.index_ghosts):
+                self.ghost_ints.append(Val.i(env[gname].t))
         pre = State(dict(env), dict(st.heap), st.guard)
         envl = self.let_env(c, env, pre)
         pre.vars = dict(envl)
@@ -732,6 +776,14 @@ class Executor(Engine, ExprMixin, StmtMixin, CallMixin):
             wd, truth = self.eval_spec(st, r, c, envl, pre)
             self.assume(st, And(wd, truth))
         self.n_entry_assumes = len(self.assumes)
+        # witness hints: evaluated in the pre-state, used by the vacuity guard only (never as assumptions)
+        self.witness_terms = []
+        for w in c.witness:
+            n_w = len(self.assumes)
+            wd, truth = self.eval_spec(st, w, c, envl, pre)
+            self.witness_terms.extend(self.assumes[n_w:])
+            del self.assumes[n_w:]
+            self.witness_terms.append(And(wd, truth))
         self.top_env = envl
         self.top_pre = pre
         self.entry_heap = dict(st.heap)
@@ -749,11 +801,24 @@ class Executor(Engine, ExprMixin, StmtMixin, CallMixin):
         self.result = result
         self.post_state = st
         if isinstance(result, V) and c.returns:
-            self.oblige(st, 'returns.type', parse_spec(c.returns).assumption(result.t),
+            self.oblige(st, 'returns.type', self.spec_formula(st, parse_spec(c.returns), result.t),
                         'result has declared type %s' % c.returns)
-        for name, expr in c.ensures.items():
-            wd, truth = self.eval_spec(st, expr, c, env2, pre)
-            self.oblige(st, name, And(wd, truth), expr)
+        if c.split_returns and getattr(self, 'top_returns', None):
+            # one obligation per return statement: the path formulas stay separate (smaller queries)
+            for rstate, rvalue in self.top_returns:
+                env3 = dict(envl)
+                rv = rvalue if rvalue is not None else self.lift(None)
+                if isinstance(rv, (GList, PyTuple)) and any(isinstance(v2, V) for _, v2 in self.top_returns):
+                    rv = self.as_v(rstate, rv)
+                env3['result'] = rv
+                rstate.vars = dict(st.vars)
+                for name, expr in c.ensures.items():
+                    wd, truth = self.eval_spec(rstate, expr, c, env3, pre)
+                    self.oblige(rstate, name, And(wd, truth), expr)
+        else:
+            for name, expr in c.ensures.items():
+                wd, truth = self.eval_spec(st, expr, c, env2, pre)
+                self.oblige(st, name, And(wd, truth), expr)
         # frame
         self.frame_obligations(st, c, envl, pre)
         # exceptional exits
